@@ -23,6 +23,12 @@ complement), the second the shard's R. After every step every engine whose state
 with a unit / run id (all methods), every listing; rpc calls reaching the engine and changes of the unit state are
 observed. Oracle = the property's: required roles of the unit = its latest UodInfoMsg, of a recent run = those of its unit
 when it ended.
+
+Real identity -> roles mapping (`_real_mapping`): in every shard the dependency overrides are lifted, authentication is
+switched on and person / application identities presenting real signed tokens call the same process in an order history
+covering every ordered pair of identities (privileged application then unprivileged application, person then
+application, ..., repeated); every id route and listing is judged against the roles the caller's own token maps to
+(`roles` claim, plus the documented implicit "Daemon" role of application tokens).
 """
 from __future__ import annotations
 
@@ -68,10 +74,25 @@ RULE = ("every route discovered from app.routes at run time (HTTP routes with a 
         "parameter-less GET route (entries of a JSON list answer attributed to the unit / stored run they name); a "
         "denied request is paired with one control by a holder of the required roles per (route, stage, subject, "
         "role set) and the answer for a non-existent id. distinct = (method, route, history, R0, R, U, stage, "
-        "subject). Seed varies sentinel strings, role names, ids and route order only.")
+        "subject). Real identity->roles mapping: in every shard, with the real auth.user_roles/user_id/user_name and "
+        "authentication enabled, identities {person (PKCE ID token), application (client-secret access token, "
+        "idtyp=app)} x token role sets {U, R} plus the application without app roles call the same process in an order "
+        "history in which every ordered pair of identities occurs as consecutive callers (closed Euler walk, n*n+1 "
+        "steps); at every step the caller sweeps every id route (all methods) of one target (unit with an active run "
+        "requiring R / unit without one requiring R / unit requiring the implicit application role 'Daemon', in turn) "
+        "and every parameter-less GET route (units, offline units, recent runs requiring R, 'Daemon' or nothing), "
+        "judged by the same oracle against the roles the caller's own token maps to. distinct = (method, route, R, U, "
+        "identity, target, previous identity). Seed varies sentinel strings, role names, ids, route order and the order "
+        "history only.")
 ASSUMPTIONS = [
-    "roles reach the handlers only through the FastAPI dependencies auth.user_roles/user_id/user_name (overridden by the "
-    "harness); token decoding (Azure JWT) is outside this check",
+    "roles reach the handlers only through the FastAPI dependencies auth.user_roles/user_id/user_name. The role-set "
+    "strata override them; the real-mapping stratum runs the real functions with authentication enabled (module "
+    "globals set as the ENABLE_AZURE_AUTHENTICATION / AZURE_* environment variables set them at import) on real "
+    "RS256-signed tokens verified by the real decode_token_or_fail; only the download of the signing keys is replaced "
+    "by locally generated keys",
+    "the roles of an identity are those /repo documents: the `roles` claim of the token presented with the request, plus "
+    "'Daemon' for an application token (idtyp=app; docs 'User Authorization (OIDC)', auth.user_roles); an identity's "
+    "roles do not depend on which other identities called before",
     "'refused' = HTTP 401/403, or a response byte-identical (status + body, ids normalised) to the response for a "
     "non-existent id, which by construction carries no information about the unit",
     "a sentinel string seeded into unit/run data appearing in a response body is a read of that unit's data; echoes of "
@@ -114,7 +135,19 @@ REQUIRED = {"denied_checks": 150, "authorised_ok": 300, "listing_checks": 20, "r
             "life_listing_unit_s2_resumed_run_after_disconnect_denied_checks": 20,
             "life_listing_unit_s2_resumed_run_after_restart_denied_checks": 20,
             "life_listing_run_resumed_denied_checks": 40, "life_listing_run_resumed_authorised_listed": 130,
-            "life_listing_unit_off1_midrun_denied_checks": 10, "life_listing_unit_off1_midrun_restart_denied_checks": 10}
+            "life_listing_unit_off1_midrun_denied_checks": 10, "life_listing_unit_off1_midrun_restart_denied_checks": 10,
+            # real identity -> roles mapping (auth enabled, real user_roles/user_id/user_name), order histories
+            "real_map_steps": 250, "real_map_requests_judged": 6000, "real_map_denied_checks": 1200,
+            "real_map_authorised_ok": 2500, "real_map_app_denied_checks": 500, "real_map_person_denied_checks": 500,
+            "real_map_app_denied_before_any_served_caller_checks": 100,
+            "real_map_app_after_privileged_app_denied_checks": 250,
+            "real_map_app_right_after_privileged_app_denied_checks": 100,
+            "real_map_app_after_privileged_person_denied_checks": 150,
+            "real_map_person_after_privileged_app_denied_checks": 300,
+            "real_map_app_served_by_implicit_daemon_role": 400,
+            "real_map_person_without_daemon_role_denied_checks": 400,
+            "real_map_listing_denied_checks": 300, "real_map_listing_app_after_app_denied_checks": 100,
+            "real_map_listing_authorised_listed": 1000}
 EXHAUSTIVE_ALL = True
 
 ID_PARAM = re.compile(r"(unit|engine|run)", re.I)
@@ -471,6 +504,78 @@ class Rig:
         self.client.portal.call(self.srv.aggregator.shutdown)
         self.srv.aggregator._engine_data_map.clear()
         self.srv.dispatcher._engine_id_channel_map.clear()
+
+    # ---- the REAL identity -> roles mapping of routers/auth.py: authentication enabled, no dependency overrides
+    def real_auth_enter(self):
+        """What ENABLE_AZURE_AUTHENTICATION / AZURE_DIRECTORY_TENANT_ID / AZURE_APPLICATION_CLIENT_ID set at import time
+        is set on the module (the functions read the globals per call); the three identity dependencies are the real
+        auth.user_roles / user_id / user_name again. Only the download of the signing keys is replaced: both key clients
+        answer with a locally generated RSA key, the tokens are real RS256-signed JWTs verified by the real
+        decode_token_or_fail (signature, audience, issuer, expiry)."""
+        import jwt
+        from cryptography.hazmat.primitives.asymmetric import rsa
+        auth = self.auth
+        tenant, client = "0f0f0f0f-1111-2222-3333-" + self.S.tok.ljust(12, "0"), "c1c1c1c1-aaaa-bbbb-cccc-" + self.S.tok.ljust(12, "0")
+        self._auth_saved = {k: getattr(auth, k) for k in ("use_auth", "tenant_id", "client_id", "authority_url",
+                                                          "well_known_url", "jwks_url_access_token", "access_token_issuer")}
+        self._auth_saved_overrides = dict(self.app.dependency_overrides)
+        auth.use_auth, auth.tenant_id, auth.client_id = True, tenant, client
+        auth.authority_url = f"https://login.microsoftonline.com/{tenant}/v2.0"
+        auth.well_known_url = f"{auth.authority_url}/.well-known/openid-configuration"
+        auth.jwks_url_access_token = f"https://login.microsoftonline.com/{tenant}/discovery/v2.0/keys"
+        auth.access_token_issuer = f"https://sts.windows.net/{tenant}/"
+        # PKCE flow (persons, ID token) and client-secret flow (applications, access token) use different keys
+        self._keys = {"person": rsa.generate_private_key(public_exponent=65537, key_size=2048),
+                      "app": rsa.generate_private_key(public_exponent=65537, key_size=2048)}
+
+        def pyjwk(k):
+            d = jwt.algorithms.RSAAlgorithm.to_jwk(k.public_key(), as_dict=True)
+            d.update({"kid": "opv", "use": "sig", "alg": "RS256"})
+            return jwt.PyJWK.from_dict(d)
+        self._jwks_saved = (auth.jwks_client_pkce.__dict__.get("get_signing_key_from_jwt"),
+                            auth.jwks_client_secret.__dict__.get("get_signing_key_from_jwt"))
+        pk_person, pk_app = pyjwk(self._keys["person"]), pyjwk(self._keys["app"])
+        auth.jwks_client_pkce.get_signing_key_from_jwt = lambda token: pk_person
+        auth.jwks_client_secret.get_signing_key_from_jwt = lambda token: pk_app
+        for f in (auth.user_roles, auth.user_id, auth.user_name):
+            self.app.dependency_overrides.pop(f, None)
+
+    def real_auth_exit(self):
+        auth = self.auth
+        for k, v in self._auth_saved.items():
+            setattr(auth, k, v)
+        for cl, old in zip((auth.jwks_client_pkce, auth.jwks_client_secret), self._jwks_saved):
+            if old is None:
+                cl.__dict__.pop("get_signing_key_from_jwt", None)
+            else:
+                cl.get_signing_key_from_jwt = old
+        self.app.dependency_overrides.clear()
+        self.app.dependency_overrides.update(self._auth_saved_overrides)
+
+    def make_token(self, kind: str, roles, oid: str) -> str:
+        """person: ID token of the PKCE flow (issuer = authority, preferred_username); app: access token of the client
+        secret flow (issuer sts.windows.net, optional claim idtyp=app, `roles` claim absent when no app role is assigned)"""
+        import jwt
+        import time as _t
+        auth = self.auth
+        claims: dict = {"aud": auth.client_id, "exp": int(_t.time()) + 24 * 3600, "iat": int(_t.time()) - 60, "oid": oid}
+        if roles:
+            claims["roles"] = sorted(roles)
+        if kind == "app":
+            claims.update({"iss": auth.access_token_issuer, "idtyp": "app"})
+        else:
+            claims.update({"iss": auth.authority_url, "preferred_username": f"{self.uname.lower()}@example.org",
+                           "name": self.uname})
+        return jwt.encode(claims, self._keys[kind], algorithm="RS256", headers={"kid": "opv"})
+
+    def request_token(self, token: str, method: str, url: str, params=None, body=None):
+        kw = {}
+        if params:
+            kw["params"] = params
+        if body is not None:
+            kw["json"] = body
+        r = self.client.request(method, url, headers={"X-Identity": token}, **kw)
+        return r.status_code, r.text
 
     # ---- mutable state (only what the routes can change) is restored between requests
     def snapshot(self, w):
@@ -910,6 +1015,9 @@ def _run(rig: Rig, res: Result, only=None):
                 else:
                     res.count("ws_authorised_incomplete")
                     inconclusive_routes[f"WS {route.path} [{wname}]"] = f"authorised conversation returned data only in {leaks}"
+    # ------------------------------------------------------------------ the real identity -> roles mapping, order histories
+    if not only or list(only)[0] == "REAL":
+        _real_mapping(rig, res, spec_case, worlds, offline, decoy, plain_get, order, fake, list(all_ids), classify)
     # ------------------------------------------------------------------ two sessions of one engine id, roles changed
     # ------------------------------------------------------------------ engine life cycles, swept at every stage
     if not only or list(only)[0] == "LIFE":
@@ -928,6 +1036,223 @@ def _run(rig: Rig, res: Result, only=None):
                          f"non-existent-id answer (counted, not judged): {sorted(ambiguous)}")
     for k in sorted(inconclusive_routes):
         res.notes.append(f"inconclusive for route {k}: {inconclusive_routes[k]}")
+
+
+def _euler_circuit(n: int, rnd: random.Random) -> list[int]:
+    """closed walk over the complete digraph with self-loops on n nodes that uses every ordered pair (i, j) exactly once
+    as consecutive elements (n*n + 1 visits); starts and ends at node 0"""
+    adj = {i: list(range(n)) for i in range(n)}
+    for i in adj:
+        rnd.shuffle(adj[i])
+    stack, out = [0], []
+    while stack:
+        v = stack[-1]
+        if adj[v]:
+            stack.append(adj[v].pop())
+        else:
+            out.append(stack.pop())
+    return out[::-1]
+
+
+DAEMON_ROLE = "Daemon"
+
+
+def _expected_roles(kind: str, token_roles: set) -> set:
+    """the identity -> roles mapping as /repo documents it (docs 'User Authorization (OIDC)': headless applications all
+    have the role Daemon; routers/auth.py user_roles): the `roles` claim of the token, plus "Daemon" for an application
+    token (idtyp=app). The mapping is a function of the token presented with the request, nothing else."""
+    return set(token_roles) | ({DAEMON_ROLE} if kind == "app" else set())
+
+
+def _real_mapping(rig: Rig, res: Result, spec_case, worlds, offline, decoy, plain_get, id_routes, fake, all_ids, classify):
+    """Stratum with the REAL auth.user_roles / user_id / user_name in place and authentication enabled (see
+    Rig.real_auth_enter). Identities = {person, application} x {U, R} and the application without roles (distinct ones); one ORDER history per
+    shard: a closed walk in which every ordered pair of identities occurs as consecutive callers of the same process.
+    At every step the caller sweeps every route with a unit / run id (all methods) of one target unit (the two worlds
+    requiring R and a unit requiring the implicit application role, in turn) and every listing; each answer is judged
+    by the property's oracle against the roles the caller's OWN token maps to."""
+    S, R, U = rig.S, rig.R, rig.U
+    Sd = Sent(rig.rnd, prefix="OPVDMN")
+    dmn = rig.seed_engine({DAEMON_ROLE}, active_run=False, S=Sd)
+    rig.save_state(dmn)
+    all_ids = all_ids + [dmn["engine_id"], dmn["run_id"]]
+    targets = [("active_run", worlds[0][1], set(R), S), ("no_active_run", worlds[1][1], set(R), S),
+               ("daemon_role_unit", dmn, {DAEMON_ROLE}, Sd)]
+    idents = []
+    for kind, roles, tag in (("app", U, "U"), ("app", R, "R"), ("person", U, "U"), ("person", R, "R"),
+                             ("app", set(), "none")):
+        # (the application without any app role is the identity whose roles are the implicit one only; the person
+        # without roles is person(U) of the shards with an empty U)
+        if not any(i["kind"] == kind and i["roles"] == set(roles) for i in idents):
+            idents.append({"kind": kind, "roles": set(roles), "name": f"{kind}({tag})", "idx": len(idents)})
+    rig.real_auth_enter()
+    try:
+        for i in idents:
+            i["token"] = rig.make_token(i["kind"], i["roles"], f"{rig.uid}-{i['idx']}")
+            i["E"] = _expected_roles(i["kind"], i["roles"])
+        ctl_tokens: dict = {}
+
+        def control_token(required):
+            ck = tuple(sorted(required))
+            if ck not in ctl_tokens:
+                ctl_tokens[ck] = rig.make_token("person", set(required), rig.uid)
+            return ctl_tokens[ck]
+
+        walk = _euler_circuit(len(idents), rig.rnd)
+        control_cache: dict = {}
+        none_cache: dict = {}
+        listing_control: dict = {}
+        served_before: dict = {}      # target name -> kinds of identities that were served on it earlier in this process
+        prev = None
+        for step, ii in enumerate(walk):
+            me = idents[ii]
+            tname, w, required, TS = targets[step % len(targets)]
+            allowed = _access(required, me["E"])
+            world = f"step{step}:{me['name']}:{tname}" + (f":after:{prev['name']}" if prev else "")
+            case = {"spec": spec_case, "only": ["REAL"], "world": world}
+            res.count("real_map_steps")
+            if prev is not None:
+                res.count(f"real_map_step_{me['kind']}_after_{prev['kind']}")
+            earlier = set(served_before.get(tname, ()))
+            served_now = False
+            ids = {"unit": w["engine_id"], "run": w["run_id"]}
+            for route in id_routes:
+                for method in sorted(route.methods - {"HEAD", "OPTIONS"}):
+                    url = build_url(route, ids, w["line_id"])
+                    params = build_params(route, rig)
+                    rig.restore_state(w)
+                    before = rig.snapshot(w)
+                    status, text = rig.request_token(me["token"], method, url, params, build_body(route, rig, w))
+                    rpc_types = [t for _, t in rig.rpc_calls]
+                    mutated = rig.snapshot(w) != before
+                    rig.restore_state(w)
+                    res.count("real_map_requests_judged")
+                    res.case(("REAL", method, route.path, tuple(rig.spec["R"]), tuple(rig.spec["U"]), me["name"], tname,
+                              prev["name"] if prev else None) if required else None,
+                             sample={"route": f"{method} {route.path}", "identity": me["name"], "token_roles": sorted(me["roles"]),
+                                     "mapped_roles": sorted(me["E"]), "required": sorted(required), "target": tname,
+                                     "previous_caller": prev["name"] if prev else None, "status": status})
+                    where = (f"{method} {route.path} [real auth mapping, step {step} of the order history, caller {me['name']} "
+                             f"({me['kind']} token with roles claim {sorted(me['roles'])} -> roles {sorted(me['E'])}), "
+                             f"previous caller {prev['name'] if prev else None}, unit {tname}]")
+                    if allowed:
+                        if status in REFUSED:
+                            res.violation("C32.authorised_user_refused",
+                                          f"{where}: required {sorted(required)} got {status} {text[:200]}", case)
+                        elif 200 <= status < 300:
+                            res.count("real_map_authorised_ok")
+                            res.count(f"real_map_{me['kind']}_authorised_ok")
+                            served_now = True
+                            if tname == "daemon_role_unit" and me["kind"] == "app":
+                                res.count("real_map_app_served_by_implicit_daemon_role")
+                        else:
+                            res.count("real_map_authorised_non_2xx")
+                        continue
+                    ck = (method, route.path, tname)
+                    if ck not in control_cache:
+                        control_cache[ck] = rig.request_token(control_token(required), method, url, params,
+                                                              build_body(route, rig, w)) + (len(rig.rpc_calls),)
+                        rig.restore_state(w)
+                        res.count("real_map_control_requests")
+                        res.count("real_map_requests_judged")
+                        if control_cache[ck][0] in REFUSED:
+                            res.violation("C32.authorised_user_refused",
+                                          f"{where}: a person whose token carries exactly the required roles "
+                                          f"{sorted(required)} got {control_cache[ck][0]} {control_cache[ck][1][:200]}", case)
+                    c_status, c_text, c_rpc = control_cache[ck]
+                    nk = (method, route.path, ii)
+                    if nk not in none_cache:
+                        none_cache[nk] = rig.request_token(me["token"], method, build_url(route, fake, w["line_id"]), params,
+                                                           build_body(route, rig, w))
+                        rig.restore_state(w)
+                    n_status, n_text = none_cache[nk]
+                    names = []
+                    if 200 <= c_status < 300:
+                        names.append("real_map_denied_checks")
+                        names.append(f"real_map_{me['kind']}_denied_checks")
+                        if not earlier:
+                            names.append(f"real_map_{me['kind']}_denied_before_any_served_caller_checks")
+                        for k in sorted(earlier):
+                            names.append(f"real_map_{me['kind']}_after_privileged_{k}_denied_checks")
+                        if prev is not None and _access(required, prev["E"]):
+                            names.append(f"real_map_{me['kind']}_right_after_privileged_{prev['kind']}_denied_checks")
+                        if tname == "daemon_role_unit":
+                            names.append("real_map_person_without_daemon_role_denied_checks")
+                    else:
+                        names.append("real_map_denied_checks_without_successful_control")
+                    for nm in names:
+                        res.count(nm)
+                    leak = TS.mark in text
+                    refused = status in REFUSED
+                    same_as_none = (status, _norm(text, all_ids)) == (n_status, _norm(n_text, all_ids))
+                    if refused:
+                        res.count("real_map_denied_refused_401_403")
+                    elif same_as_none:
+                        res.count("real_map_denied_same_as_nonexistent")
+                    mech = classify(route, (status, text) == (c_status, c_text))
+                    if leak:
+                        found = sorted(set(re.findall(re.escape(TS.mark) + r"[A-Z0-9]+", text)))[:6]
+                        res.violation(mech, f"{where}: required {sorted(required)} got {status} with unit data {found}", case)
+                    elif not refused and not same_as_none:
+                        if 200 <= status < 300:
+                            res.violation(mech, f"{where}: required {sorted(required)} got {status} {text[:160]!r}, neither a "
+                                          f"refusal nor the answer for a non-existent id ({n_status} {n_text[:120]!r})", case)
+                        else:
+                            res.count("real_map_denied_error_status_not_a_refusal_ambiguous")
+                    if rpc_types:
+                        res.violation("C32.rpc_reached_engine_for_denied_user",
+                                      f"{where}: {rpc_types} reached the engine channel, required {sorted(required)} "
+                                      f"(status {status})", case)
+                    if mutated:
+                        res.violation("C32.denied_request_changed_unit_state",
+                                      f"{where}: method/active users/contributors of the unit changed, required "
+                                      f"{sorted(required)} (status {status})", case)
+
+            # listings, judged for every unit / run of the shard against the caller's own mapped roles
+            subjects = [("online unit", [worlds[0][1]["engine_id"], worlds[1][1]["engine_id"]], set(R)),
+                        ("offline recent engine", [offline["engine_id"]], set(R)),
+                        ("recent run", [worlds[0][1]["run_id"], worlds[1][1]["run_id"], offline["run_id"]], set(R)),
+                        ("unit requiring the implicit application role", [dmn["engine_id"]], {DAEMON_ROLE}),
+                        ("recent run requiring the implicit application role", [dmn["run_id"]], {DAEMON_ROLE}),
+                        ("open unit / run", [decoy["engine_id"], decoy["run_id"]], set())]
+            for route in plain_get:
+                params = build_params(route, rig)
+                status, text = rig.request_token(me["token"], "GET", route.path, params)
+                res.count("real_map_requests_judged")
+                for what, idl, required in subjects:
+                    lk = (route.path, tuple(sorted(required)))
+                    if lk not in listing_control:
+                        listing_control[lk] = rig.request_token(control_token(required), "GET", route.path, params)[1]
+                    in_control = [i for i in idl if i in listing_control[lk]]
+                    if not in_control:
+                        continue
+                    present = [i for i in in_control if i in text]
+                    ok = _access(required, me["E"])
+                    lwhere = (f"GET {route.path} [real auth mapping, step {step}, caller {me['name']} ({me['kind']} token with "
+                              f"roles claim {sorted(me['roles'])} -> roles {sorted(me['E'])}), previous caller "
+                              f"{prev['name'] if prev else None}]")
+                    if not ok:
+                        res.count("real_map_listing_denied_checks")
+                        if me["kind"] == "app" and "app" in earlier | ({prev["kind"]} if prev else set()):
+                            res.count("real_map_listing_app_after_app_denied_checks")
+                        if present:
+                            res.violation("C32.listing_includes_denied_run" if "run" in what else
+                                          "C32.listing_includes_denied_unit",
+                                          f"{lwhere}: {what} {present} requiring {sorted(required)} is listed", case)
+                    elif len(present) == len(in_control):
+                        res.count("real_map_listing_authorised_listed")
+                    else:
+                        res.violation("C32.listing_omits_open_unit_or_run" if not required else
+                                      "C32.listing_omits_authorised_unit_or_run",
+                                      f"{lwhere}: {what} requiring {sorted(required)} is not listed", case)
+            if served_now:
+                served_before.setdefault(tname, set()).add(me["kind"])
+            prev = me
+    finally:
+        rig.real_auth_exit()
+    # what the later strata need: the extra unit goes offline again (it stays a recent engine requiring a role nobody of
+    # the role universe holds, so it is invisible to them)
+    rig.client.portal.call(rig.srv.dispatcher.on_client_disconnect, dmn["channel"])
 
 
 def _access(required: set, user: set) -> bool:
